@@ -115,7 +115,8 @@ def create_equation_punct_messages(plain, cmdline,
 def create_context(txt, offset, length):
     context_size = 45
     beg = max(offset - context_size, 0)
-    end = min(offset + context_size, len(txt))
+    # (the excerpt has to contain the marked characters completely)
+    end = min(max(offset + context_size, offset + length), len(txt))
     s = txt[beg:end].replace('\t', ' ').replace('\n', ' ')
     return  {
         'text': '...' + s + '...',
